@@ -6,7 +6,7 @@ CHECKS = {
     "C08": dict(cat="model_checking", tech="TLC model checking of Batching.tla + trace validation (Trace_DataGen.tla) of real generator histories",
                 text="TLC exhausts every history of one store (all sizes <= 6, all permutations) for 'every batch is a window of the permuted store'; "
                      "traces of the real ODE/stationary/non-stationary generators (uniform+grid, 4 boxes, n up to 128 for the count clause) are "
-                     "validated event by event against the construction/shape/facet/product clauses of the spec.",
+                     "validated event by event against the construction/shape/facet/product clauses of the spec; constructor contracts (Contracts.tla: accepted configurations, normalised nb / border batch) are tried on the real constructors.",
                 note="float membership in the closed box / on a facet is evaluated per stored point by the projection; PRNG keys sampled; TLC and the projection are trusted", ref="3.1 3.2 C08"),
     "C09": dict(cat="model_checking", tech="TLC model checking of Batching.tla + trace validation (Trace_DataGen.tla) over all 1<=b<=n<=8 per store kind",
                 text="The epoch/cursor algorithm is model-checked for all n<=6, b<=n, active prefixes and permutations (NoRepeatWhenDivides, CoverBeforeReshuffle, "
@@ -18,7 +18,7 @@ CHECKS = {
                 note="point identity = exact bytes; PRNG sampled", ref="3.2 C14"),
     "C15": dict(cat="model_checking", tech="TLC model checking of Batching.tla (index vector) + trace validation (Trace_DataGen.tla) with tagged tables",
                 text="Tagged user tables make every batch row decode to the original row of each of its parts; TLC checks row alignment, shuffled-index conformance, "
-                     "per-key parameter sources (table over range, both table shapes) and multi-network loaders for every table size <= 8 and batch size.",
+                     "per-key parameter sources (table over range, both table shapes) and multi-network loaders (incl. differently ordered user dictionaries) for every table size <= 8 and batch size; loader constructor contracts (Contracts.tla).",
                 note="tables are crafted (distinct tagged floats); PRNG sampled", ref="3.2 C15"),
     "C16": dict(cat="model_checking", tech="TLC model checking of Rar.tla / RarStore.tla + trace validation (Trace_Rar.tla) of generators driven directly and through jinns.solve",
                 text="All schedules (start, every), capacities and per-axis sizes up to the bounds are model-checked (steps exactly at start+k*every while there is room, "
@@ -32,7 +32,8 @@ CHECKS = {
     "C07": dict(cat="model_checking", tech="TLC model checking of Solve.tla + replay of TLC-emitted scenarios and driver families into jinns.solve, validated by Trace_Solve.tla (tagged arithmetic)",
                 text="The loop (probe draw, draw, gradient step, validation, RAR, store, guard) is model-checked for all n<=6; scenarios and driver families (epoch wrap, batch sizes dividing or not, "
                      "parameter/observation generators, tracked specs, sgd/adam/chained optimizers, resumed runs) run through the real solve with every history entry decoding to (parameter version, batch ids); "
-                     "Trace_Solve recomputes the expected result with the model's own operators and compares every entry, the returned parameters, optimizer state and generator.",
+                     "Trace_Solve recomputes the expected result with the model's own operators and compares every entry, the returned parameters, optimizer state and generator. "
+                     "Extra legs: every generator kind as advanced by solve (hook H2) validated against Batching.tla; the batch-size contract of solve (Contracts.tla).",
                 note="tagged arithmetic under x64 (exact integers); for sgd/adam/chain only loop structure is compared; n_iter=0 with tracking/validation/aux generators is degenerate (cannot be traced) and not claimed", ref="3.4 C07"),
     "C18": dict(cat="fault_enumeration", tech="TLC enumeration of the fault space on Solve.tla + replay into jinns.solve with real NaN injectors, validated by Trace_Solve.tla",
                 text="Every fault position x origin (loss value, gradient of a network leaf, gradient of an equation parameter, optimizer update) x validation kind is enumerated by TLC; a stratified selection of the "
@@ -40,7 +41,8 @@ CHECKS = {
                 note="tagged arithmetic under x64; per-leaf NaN pattern of each origin is part of the specification", ref="3.4 C18"),
     "C19": dict(cat="model_checking", tech="TLC model checking of Solve.tla/SolveOps (ValidationLoss state machine) + replay of TLC-emitted validation scripts into jinns.solve, validated by Trace_Solve.tla",
                 text="All validation outcome scripts (user module: improve/stop per call; built-in ValidationLoss: loss values, patience 0..2, early stopping on/off), periods and iteration counts are model-checked; "
-                     "scenarios are replayed with a scripted AbstractValidationModule or the real ValidationLoss with its own (mini-batched) generators; criterion history, stop iteration and best parameters decode exactly.",
+                     "scenarios are replayed with a scripted AbstractValidationModule or the real ValidationLoss with its own (mini-batched) generators; criterion history, stop iteration and best parameters decode exactly. "
+                     "Extra leg: Validation.tla (ValidationLoss state machine) model-checked and every value script replayed by calling the real module directly (Trace_Validation.tla).",
                 note="tagged arithmetic under x64; ValidationLoss criterion = rank^2*4^12 + batch tags so that stale validation generators are visible", ref="3.4 C19"),
     "C01": dict(cat="model_checking", tech="TLC enumeration of the operator configuration space (MC_Operators.tla) + exact conformance of jinns' operators against Operators.tla (Trace_Func.tla)",
                 text="TLC enumerates dim 1..4 x time? x operator x every monomial of total degree <= 3 (the determining set) per output component; the real reverse-mode operators are evaluated on "
